@@ -109,15 +109,24 @@ def run_workers(jobs, timeout):
             rc = -9
         lf.close()
         results = []
+        last_start = None
         if os.path.exists(job["out"]):
             for line in open(job["out"]):
                 line = line.strip()
                 if line:
                     try:
-                        results.append(json.loads(line))
+                        obj = json.loads(line)
                     except Exception:
-                        pass
-        out.append((job, results, rc, open(lp).read()[-4000:]))
+                        continue
+                    if "starting" in obj:
+                        last_start = obj["starting"]
+                    else:
+                        results.append(obj)
+                        last_start = None
+        log = open(lp).read()[-4000:]
+        if rc != 0 and last_start is not None:
+            log += "\n(run in progress when the worker stopped: seed=%d)" % last_start
+        out.append((job, results, rc, log))
     return out, rundir
 
 
@@ -155,8 +164,11 @@ def write_replay(prop, res, viol, rundir):
         "fired_at_step": viol["step"], "trace_hash": res["trace_hash"], "go": GO, "repo_tree": repo_tree(),
         "replay_exact": True,
     }
-    os.makedirs(os.path.join(VERIF, "replays"), exist_ok=True)
-    raw = os.path.join(VERIF, "replays", "%s-%d.raw.json" % (prop, res["seed"]))
+    rdir = os.path.join(VERIF, "replays")
+    if os.environ.get("VERIF_EVIDENCE_SUFFIX"):
+        rdir = os.path.join(VERIF, "replays", "tmp")
+    os.makedirs(rdir, exist_ok=True)
+    raw = os.path.join(rdir, "%s-%s-%d.raw.json" % (prop, viol["key"].replace("/", "_").replace("@", "_")[:40], res["seed"]))
     json.dump(rf, open(raw, "w"))
     return raw, rf
 
@@ -385,7 +397,8 @@ def write_evidence(prop, tier, seed, runs, wall, budget, workers, nviol, known_s
         "violations": nviol,
     }
     os.makedirs(os.path.join(VERIF, "evidence"), exist_ok=True)
-    json.dump(ev, open(os.path.join(VERIF, "evidence", prop + ".json"), "w"), indent=1)
+    suffix = os.environ.get("VERIF_EVIDENCE_SUFFIX", "")
+    json.dump(ev, open(os.path.join(VERIF, "evidence", prop + suffix + ".json"), "w"), indent=1)
 
 
 EXPECTED_PROBES = {}
